@@ -77,6 +77,9 @@ func (fr *Frame) intrinsic(st *State, site ssa.Instruction, full string, fn *ssa
 		n := map[string]int{"64": 8, "32": 4, "16": 2}[full[len(full)-2:]]
 		fr.binaryPut(st, args[1], T(2), n, strings.Contains(full, "bigEndian"))
 		return nil, true
+	case "(*sync.Once).Do":
+		fr.v.assume("sync.Once-guarded lazy initialisation is treated as already done: the initialised tables are fixed constants")
+		return nil, true
 	case "errors.New":
 		// a fresh non-nil error value; identity of package-level sentinel errors is modelled by name elsewhere
 		fr.v.fresh++
@@ -231,7 +234,7 @@ func (fr *Frame) ringCall(st *State, fn *ssa.Function, args []Value) (Value, boo
 			return nil, false
 		}
 		if len(fn.Params) >= 1 {
-			if pt, ok := fn.Params[0].Type().Underlying().(*types.Pointer); ok && v.isAbstract(pt.Elem()) {
+			if pt, ok := fn.Params[0].Type().Underlying().(*types.Pointer); ok && v.isRing(pt.Elem()) {
 				switch fn.Name() {
 				case "MulBy3", "MulBy5", "MulBy13":
 					k := map[string]int64{"MulBy3": 3, "MulBy5": 5, "MulBy13": 13}[fn.Name()]
@@ -255,7 +258,7 @@ func (fr *Frame) ringCall(st *State, fn *ssa.Function, args []Value) (Value, boo
 	if p, ok := rt.(*types.Pointer); ok {
 		rt = p.Elem()
 	}
-	if !v.isAbstract(rt) {
+	if !v.isRing(rt) {
 		return nil, false
 	}
 	ld := func(i int) *Term {
@@ -329,6 +332,44 @@ func (fr *Frame) ringCall(st *State, fn *ssa.Function, args []Value) (Value, boo
 		return set(F.Mul(ld(1), ld(2)))
 	case "Conjugate":
 		return set(F.App("ring.conj."+recvName(rt), SInt, ld(1)))
+	}
+	// any other method of an abstract element type: opaque effect (fresh receiver, fresh results). Sound for
+	// pointer receivers that write only their receiver; value results are unconstrained.
+	otherPtr := false
+	for i := 0; i < fn.Signature.Params().Len(); i++ {
+		if _, isP := fn.Signature.Params().At(i).Type().Underlying().(*types.Pointer); isP {
+			otherPtr = true
+		}
+	}
+	if !otherPtr {
+		v.fresh++
+		if _, isPtr := recv.Type().(*types.Pointer); isPtr {
+			fr.store(st, args[0], F.Var(fmt.Sprintf("opq!%s!%d", fn.Name(), v.fresh), SInt), nil)
+		}
+		v.assume("method " + v.funcKey(fn) + " of an abstract element type is treated as opaque at the ring layer (fresh receiver value, unconstrained results; it is assumed to write nothing but its receiver and fresh memory)")
+		rs := fn.Signature.Results()
+		mk := func(i int) Value {
+			t := rs.At(i).Type()
+			if pt, ok := t.Underlying().(*types.Pointer); ok && v.isAbstract(pt.Elem()) {
+				return args[0]
+			}
+			if _, ok := t.Underlying().(*types.Interface); ok {
+				return &IfaceV{V: F.Fresh("opq!"+fn.Name()+"!err", mkSort("Iface"))}
+			}
+			return v.symValue(fmt.Sprintf("opq!%s!%d_r%d", fn.Name(), v.fresh, i), t, false)
+		}
+		switch rs.Len() {
+		case 0:
+			return nil, true
+		case 1:
+			return mk(0), true
+		default:
+			es := make([]Value, rs.Len())
+			for i := range es {
+				es[i] = mk(i)
+			}
+			return &TupleV{es}, true
+		}
 	}
 	return nil, false
 }
